@@ -153,6 +153,7 @@ class JniBaseType(BaseModel):
     def boxed_type_signature(self) -> str: return self.type_signature
 
     @cached_property
+    @validate(cpp_keywords)
     def name(self) -> str: return self.decl.name.convert(self.config.identifier.class_name)
 
     @property
@@ -198,6 +199,7 @@ class JniFunction(JniBaseType):
     decl: Function = Field(exclude=True, repr=False)
 
     @cached_property
+    @validate(cpp_keywords)
     def name(self) -> str: return self.decl.name.title() if self.decl.anonymous else super().name
 
     @cached_property
@@ -297,6 +299,12 @@ class JniInterface(JniBaseType):
 
 class JniParameter(JniBaseField):
     decl: Parameter = Field(exclude=True, repr=False)
+
+    # a parameter of a native method is a C++ parameter of the generated glue function
+    @computed_field
+    @cached_property
+    @validate(cpp_keywords)
+    def name(self) -> str: return self.decl.name.convert(self.config.identifier.field)
 
     @cached_property
     def field_accessor(self): return get_field_accessor(self.decl.type_ref)
